@@ -49,7 +49,7 @@ def pred_forbidden(tag):
 CODEC_FAMILY = {
     "pk": "pk", "pk_unc": "pk_coord", "pk_coord": "pk_coord", "sk": "sk", "sig": "sig", "pok": "pok", "zkpok": "zkpok",
     "commitment": "commitment", "blindfactor": "blindfactor", "message": "message", "scalar": "blindfactor",
-    "parse_g1": "sig", "parse_g2": "pk", "parse_g2u": "pk_coord",
+    "parse_g1": "sig_allflips", "parse_g2": "pk", "parse_g2u": "pk_coord",
 }
 TOTAL_FAMILY = {
     "BBSplusPublicKey.from_bytes": "pk", "BBSplusSecretKey.from_bytes": "sk", "BBSplusSignature.from_bytes": "sig",
